@@ -219,10 +219,20 @@ def strip_meta(ans):
     return ans[:m.start()], bool(m.group(1)), int(m.group(2)), int(m.group(3)), int(m.group(4))
 
 
+def _big_stack():
+    # the extracted model recurses over lists (a 1 MiB payload is a million-element list): give it the stack the hard limit allows
+    try:
+        import resource
+        soft, hard = resource.getrlimit(resource.RLIMIT_STACK)
+        resource.setrlimit(resource.RLIMIT_STACK, (hard, hard))
+    except Exception:
+        pass
+
+
 def run_binary(binary, lines, timeout):
     try:
         p = subprocess.run([binary], input="\n".join(lines) + "\n", stdout=subprocess.PIPE, stderr=subprocess.PIPE,
-                           text=True, timeout=timeout, env=ENV)
+                           text=True, timeout=timeout, env=ENV, preexec_fn=_big_stack)
         rc, so, se = p.returncode, p.stdout, p.stderr
     except subprocess.TimeoutExpired as e:
         # a hang: keep the answers printed so far; the unanswered cases show up as "<no answer>"
